@@ -6,7 +6,7 @@
 * textbook EKF predict / update / NIS.
 
 AST (JSON lists): ["sym", name] | ["dt"] | ["const", p, q] | ["add", a, b] | ["sub", a, b] | ["mul", a, b]
-                  | ["div", a, b] | ["atan2", a, b] | ["pow", a, n] | ["fn", f, a]
+                  | ["div", a, b] | ["atan2", a, b] | ["pow", a, n] | ["fn", f, a] | ["clip", a, lo, hi]
 """
 from __future__ import annotations
 
@@ -112,6 +112,16 @@ def ref_eval_d(ast, env, wrt=None):
         if n < 0 and abs(v) < SING:
             raise Singular("pow base")
         return v**n, n * v ** (n - 1) * dv
+    if t == "clip":  # saturation: Piecewise((lo, a < lo), (hi, a > hi), (a, True)) with constant bounds
+        a, da = ref_eval_d(ast[1], env, wrt)
+        lo, hi = ref_eval_d(ast[2], env, None)[0], ref_eval_d(ast[3], env, None)[0]
+        if abs(a - lo) < SING or abs(a - hi) < SING:
+            raise Singular("clip kink")
+        if a < lo:
+            return lo, mp.mpf(0)
+        if a > hi:
+            return hi, mp.mpf(0)
+        return a, da
     a, da = ref_eval_d(ast[1], env, wrt)
     b, db = ref_eval_d(ast[2], env, wrt)
     if t == "add":
@@ -143,6 +153,10 @@ def ref_eval_mag(ast, env):
     if t == "fn":
         a, m = ref_eval_mag(ast[2], env)
         v = _fn(ast[1], a, mp.mpf(0))[0]
+        return v, max(m, abs(v))
+    if t == "clip":
+        a, m = ref_eval_mag(ast[1], env)
+        v = ref_eval(ast, env)
         return v, max(m, abs(v))
     if t == "pow":
         a, m = ref_eval_mag(ast[1], env)
@@ -177,6 +191,9 @@ def ast_consts(ast, acc=None):
     elif ast[0] in ("add", "sub", "mul", "div", "atan2"):
         ast_consts(ast[1], acc)
         ast_consts(ast[2], acc)
+    elif ast[0] == "clip":
+        for sub_ in ast[1:]:
+            ast_consts(sub_, acc)
     elif ast[0] == "pow":
         ast_consts(ast[1], acc)
     elif ast[0] == "fn":
@@ -198,6 +215,8 @@ def ast_symbols(ast, acc=None):
     elif ast[0] in ("add", "sub", "mul", "div", "atan2"):
         ast_symbols(ast[1], acc)
         ast_symbols(ast[2], acc)
+    elif ast[0] == "clip":
+        ast_symbols(ast[1], acc)
     elif ast[0] == "pow":
         ast_symbols(ast[1], acc)
     elif ast[0] == "fn":
@@ -215,6 +234,8 @@ def ast_rename(ast, ren):
         return ["fn", ast[1], ast_rename(ast[2], ren)]
     if t == "pow":
         return ["pow", ast_rename(ast[1], ren), ast[2]]
+    if t == "clip":
+        return ["clip", ast_rename(ast[1], ren), list(ast[2]), list(ast[3])]
     return [t, ast_rename(ast[1], ren), ast_rename(ast[2], ren)]
 
 
